@@ -1028,15 +1028,19 @@ def transform(stream, mul=1, add=0):
     return out
 
 
-SCALES = [2, 4, 8, 0.5, 0.25, 3, 5, 10]
+SCALES = [2, 4, 8, 0.5, 0.25, 3, 5, 10, 2.0 ** -14, 2.0 ** -20, 2.0 ** 12]   # powers of two scale exactly, however small
 SHIFTS = [0.125, 1, 16.5, 100, 1000.125, 4096, -0.5, -8.25]
 
 
-def _exact_ok(stream):
-    """all prices still multiples of 1/64 with plenty of mantissa left and positive"""
+def _exact_ok(stream, pow2=False):
+    """all prices still multiples of 1/64 with plenty of mantissa left and positive; scaling by a power of two is exact
+    wherever nothing underflows, however small the result"""
     for t in stream:
         for x in t[1:5]:
-            if not (0 < x < 2**30) or (x * 64) != int(x * 64):
+            if pow2:
+                if not (2.0 ** -200 < x < 2**30):
+                    return False
+            elif not (0 < x < 2**30) or (x * 64) != int(x * 64):
                 return False
     return True
 
@@ -1050,7 +1054,7 @@ def check_pattern(scn):
     expected = violate is None
     for label, mul, add in [("base", 1, 0)] + [("scale", m, 0) for m in scn.get("scales", [])] + [("shift", 1, a) for a in scn.get("shifts", [])]:
         stream = transform(scn["stream"], mul, add)
-        if label != "base" and not _exact_ok(stream):
+        if label != "base" and not _exact_ok(stream, pow2=(label == "scale" and _is_pow2(mul))):
             continue
         stat = pattern_status(fn, stream, w)
         want = {c: ("fails" if c == violate else "holds") for c in CLAUSES[fn]}
@@ -1126,7 +1130,7 @@ def check_invariance(scn):
     ev = fired = 0
     for label, mul, add in [("scale", m, 0) for m in scn.get("scales", [])] + [("shift", 1, a) for a in scn.get("shifts", [])]:
         st = transform(base, mul, add)
-        if not _exact_ok(st):
+        if not _exact_ok(st, pow2=(label == "scale" and _is_pow2(mul))):
             continue
         cs1 = build(scn, stream=st, readings=[])
         pow2 = label == "scale" and _is_pow2(mul)
